@@ -83,6 +83,8 @@ def _union_perm(prop, v):
         # whichever spelling came first, so its answer changes after cache_clear()
         return (v.get("kind") == "predicate-unstable" and v.get("union_object") is True
                 and v.get("predicate") in ("origin", "name", "qualname", "args", "isgeneric", "issubscriptedgeneric", "resolve_supertype", "unwrap"))
+    if v.get("pos_desc") == "union" and v.get("union_twin") is True and str(v.get("kind", "")).startswith("union-"):
+        return True  # the same program holds an equal union with another member order
     return v.get("kind") in ("permutation-served-from-cache",) or (
         v.get("kind") == "history-dependent" and v.get("mechanism") == "union-permutation")
 
